@@ -78,7 +78,8 @@ ART_FOR = {"der": "jeden", "die": "jede", "das": "jedes"}
 LIT_TXT = {"lz": "7", "lk": "2,5", "lb": "wahr", "lc": "'c'", "lt": '"tx"'}
 BIN_TXT = {"plus": "{} plus {}", "minus": "{} minus {}", "mal": "{} mal {}", "durch": "{} durch {}", "mod": "{} modulo {}",
            "lt": "{} kleiner als {} ist", "gt": "{} größer als {} ist", "eq": "{} gleich {} ist", "ne": "{} ungleich {} ist",
-           "and": "{} und {}", "or": "{} oder {}", "idx": "{} an der Stelle {}"}
+           "and": "{} und {}", "or": "{} oder {}", "idx": "{} an der Stelle {}",
+           "cat": "{} verkettet mit {}", "from": "{} ab dem {}. Element", "upto": "{} bis zum {}. Element"}
 
 
 def ident(k):
@@ -99,6 +100,11 @@ def ty_name(t):
     if is_struct(t):
         return ident(t[1])
     return TYN[t][0]
+
+
+def ty_name_akk(t):
+    """type name after 'jeden/jede/jedes' (accusative: 'jeden Buchstaben')"""
+    return "Buchstaben" if t == "C" else ty_name(t)
 
 
 def ref_name(t):
@@ -128,6 +134,10 @@ def r_expr(e):
         return "(%s von %s)" % (ident(e[1]), r_expr(e[2]))
     if k == "call":
         return "(" + r_call(e[1], e[2:]) + ")"
+    if k == "slice":
+        return "(%s im Bereich von %s bis %s)" % (r_expr(e[1]), r_expr(e[2]), r_expr(e[3]))
+    if k == "list":
+        return "(eine Liste, die aus %s besteht)" % ", ".join(r_expr(x) for x in e[1:])
     raise ValueError(e)
 
 
@@ -149,6 +159,24 @@ def r_stmt(s, ind, out):
         out.append("%s%s Konstante %s ist %s." % (t, ART[s[1]], ident(s[2]), LIT_TXT[s[3]]))
     elif k == "assign":
         out.append("%sSpeichere %s in %s." % (t, r_expr(s[2]), ident(s[1])))
+    elif k == "assignidx":
+        out.append("%sSpeichere %s in %s an der Stelle %s." % (t, r_expr(s[3]), ident(s[1]), r_expr(s[2])))
+    elif k == "assignfield":
+        out.append("%sSpeichere %s in %s von %s." % (t, r_expr(s[3]), ident(s[1]), ident(s[2])))
+    elif k == "foreach":
+        out.append("%sFür %s %s %s in %s, mache:" % (t, ART_FOR[s[1]], ty_name_akk(s[2]), ident(s[3]), r_expr(s[4])))
+        r_block(s[5], ind + 1, out)
+    elif k == "repeat":
+        out.append("%sWiederhole:" % t)
+        r_block(s[1], ind + 1, out)
+        cnt = r_expr(s[2])
+        if cnt[0].islower():        # a lower-case keyword (wahr) must not open the line after the full stop of the body
+            cnt = "(" + cnt + ")"
+        out.append("%s%s Mal." % (t, cnt))
+    elif k == "dowhile":
+        out.append("%sMache:" % t)
+        r_block(s[1], ind + 1, out)
+        out.append("%sSolange %s." % (t, r_expr(s[2])))
     elif k == "if":
         out.append("%sWenn %s, dann:" % (t, r_expr(s[1])))
         r_block(s[2], ind + 1, out)
@@ -382,6 +410,14 @@ class Spec:
             if is_list(a):
                 return a[1]
             return "C" if a == "T" else None
+        if o == "cat":
+            if not is_list(a) and not is_list(b) and (a == "T" or b == "T"):
+                return "T" if (a in ("T", "C") and b in ("T", "C")) else None
+            ea = a[1] if is_list(a) else a
+            eb = b[1] if is_list(b) else b
+            return ["L", ea] if ea == eb else None
+        if o in ("from", "upto"):
+            return a if (is_list(a) or a == "T") and idx(b) else None
 
     def cast(self, s, t):
         prim = s in PRIMS
@@ -431,6 +467,14 @@ class Spec:
             if sig is None or sig[1] is None or not self.args_ok(F, G, e[2:], sig[0]):
                 return None
             return sig[1]
+        if k == "slice":
+            a, ti, tj = self.type_of(F, G, e[1]), self.type_of(F, G, e[2]), self.type_of(F, G, e[3])
+            return a if a is not None and (is_list(a) or a == "T") and ti in INDEX and tj in INDEX else None
+        if k == "list":
+            ts = [self.type_of(F, G, x) for x in e[1:]]
+            if ts[0] is None or is_list(ts[0]) or any(t != ts[0] for t in ts):
+                return None
+            return ["L", ts[0]]
 
     def args_ok(self, F, G, args, ps):
         if len(args) != len(ps):
@@ -469,6 +513,30 @@ class Spec:
         if k == "assign":
             b = self.lookup(G, s[1])
             return bool(b) and b[0] == "var" and self.assignable(self.type_of(F, G, s[2]), b[1])
+        if k == "assignidx":
+            b = self.lookup(G, s[1])
+            if not b or b[0] != "var" or not (is_list(b[1]) or b[1] == "T"):
+                return False
+            el = b[1][1] if is_list(b[1]) else "C"
+            return self.type_of(F, G, s[2]) in INDEX and self.assignable(self.type_of(F, G, s[3]), el)
+        if k == "assignfield":
+            b = self.lookup(G, s[2])
+            if not b or b[0] != "var" or not is_struct(b[1]) or b[1][1] not in self.structs:
+                return False
+            for (pub, f, t) in self.structs[b[1][1]][1]:
+                if f == s[1]:
+                    return pub == 1 and self.assignable(self.type_of(F, G, s[3]), t)
+            return False
+        if k == "foreach":
+            _, a, t, x, e, b = s
+            te = self.type_of(F, G, e)
+            if not (self.ty_ok(G, t) and self.gender(t) == a and te is not None and (te == ["L", t] or (te == "T" and t == "C"))):
+                return False
+            return self.block(F, [{x: ("var", t)}] + G, d + 1, r, b)
+        if k == "repeat":
+            return self.block(F, [{}] + G, d + 1, r, s[1]) and self.type_of(F, G, s[2]) in INDEX
+        if k == "dowhile":
+            return self.block(F, [{}] + G, d + 1, r, s[1]) and self.type_of(F, G, s[2]) == "W"
         if k == "if":
             return self.type_of(F, G, s[1]) == "W" and self.block(F, [{}] + G, d, r, s[2]) and self.block(F, [{}] + G, d, r, s[3])
         if k == "while":
@@ -637,8 +705,10 @@ class Gen:
                    "C": ["idx", "cast"], "T": ["cast", "call", "field"]}
             if isinstance(t, str):
                 cands += ops[t] * 2
+                if t == "T":
+                    cands += ["cattext", "slice1", "slice3"]
             elif is_list(t):
-                cands += ["cast", "idx"]
+                cands += ["cast", "idx", "listlit", "listlit", "catlist", "catlist", "slice1", "slice3"]
         if not cands:
             if is_struct(t):
                 return None
@@ -704,6 +774,24 @@ class Gen:
             srcs = {"Z": ["K", "B", "W", "C", "T", "Z"], "K": ["T", "Z", "B", "K"], "B": ["Z", "K", "B"], "W": ["Z", "B", "W"],
                     "C": ["Z", "B", "C"], "T": PRIMS}[t]
             return ["cast", sub(r.choice(srcs)), t]
+        if c == "listlit":
+            if not is_list(t) or is_list(t[1]) or is_struct(t[1]):
+                return None
+            return ["list"] + [sub(t[1]) for _ in range(r.randint(1, 3))]
+        if c == "cattext":
+            a, b = r.choice([("T", "T"), ("T", "C"), ("C", "T")])
+            return ["bin", "cat", sub(a), sub(b)]
+        if c == "catlist":
+            if not is_list(t) or is_list(t[1]) or is_struct(t[1]):
+                return None
+            el = t[1]
+            shapes = [(t, t), (t, el), (el, t)] + ([(el, el)] if el != "T" else [])
+            a, b = r.choice(shapes)
+            return ["bin", "cat", sub(a), sub(b)]
+        if c == "slice1":
+            return ["bin", r.choice(["from", "upto"]), sub(t), sub(r.choice(INDEX))]
+        if c == "slice3":
+            return ["slice", sub(t), sub(r.choice(INDEX)), sub(r.choice(INDEX))]
         if c == "call":
             fs = [f for f, (ps, rt) in F.items() if rt == t]
             r.shuffle(fs)
@@ -779,9 +867,9 @@ class Gen:
 
     def stmt(self, F, G, d, rctx, level):
         r = self.rng
-        kinds = ["svar"] * 6 + ["sconst"] * 2 + ["assign"] * 3 + ["scall"] * 3
+        kinds = ["svar"] * 6 + ["sconst"] * 2 + ["assign"] * 3 + ["scall"] * 3 + ["assignidx"] * 2 + ["assignfield"]
         if level < 3:
-            kinds += ["if"] * 2 + ["while", "for", "for", "block"]
+            kinds += ["if"] * 2 + ["while", "for", "for", "block", "foreach", "foreach", "repeat", "dowhile"]
         if d > 0:
             kinds += ["break", "continue"]
         if rctx != "global" and rctx[1] is None and level > 0:
@@ -806,6 +894,38 @@ class Gen:
             e = self.expr(F, G, src, r.choice([0, 1, 2]))
             self.use(G, x)
             return ["assign", x, e]
+        if k == "assignidx":
+            cands = [(x, b[1]) for sc in G for x, b in sc.items() if b[0] == "var" and self.spec.lookup(G, x) == b and (b[1] == "T" or (is_list(b[1]) and not is_struct(b[1][1])))]
+            if not cands:
+                return None
+            x, t = r.choice(cands)
+            el = t[1] if is_list(t) else "C"
+            src = r.choice(NUMERIC) if el in NUMERIC and r.random() < 0.3 else el
+            self.use(G, x)
+            return ["assignidx", x, self.expr(F, G, r.choice(INDEX), r.choice([0, 1])), self.expr(F, G, src, r.choice([0, 1, 2]))]
+        if k == "assignfield":
+            for sc in G:
+                for x, b in sc.items():
+                    if b[0] == "var" and is_struct(b[1]) and self.spec.lookup(G, x) == b:
+                        fs = [(f, ft) for (pub, f, ft) in self.spec.structs.get(b[1][1], (None, []))[1] if pub == 1]
+                        if fs:
+                            f, ft = r.choice(fs)
+                            self.use(G, x)
+                            return ["assignfield", f, x, self.expr(F, G, ft, r.choice([0, 1, 2]))]
+            return None
+        if k == "foreach":
+            t = r.choice(["Z", "T", "C", "K", "Z"])
+            src = "T" if (t == "C" and r.random() < 0.7) else ["L", t]
+            e = self.expr(F, G, src, r.choice([0, 1, 2]))
+            x = self.decl_name(G, t)
+            b = self.block(F, [self.scope({x: ("var", t)})] + G, d + 1, rctx, r.randint(1, 3), level + 1)
+            return ["foreach", self.spec.gender(t), t, x, e, b]
+        if k == "repeat":
+            b = self.block(F, [self.scope()] + G, d + 1, rctx, r.randint(1, 3), level + 1)
+            return ["repeat", b, self.expr(F, G, r.choice(INDEX), r.choice([0, 1]))]
+        if k == "dowhile":
+            b = self.block(F, [self.scope()] + G, d + 1, rctx, r.randint(1, 3), level + 1)
+            return ["dowhile", b, self.expr(F, G, "W", r.choice([0, 1, 2]))]
         if k == "scall":
             fs = list(F)
             r.shuffle(fs)
@@ -1012,8 +1132,8 @@ def explain(model, p):
 EXPECT = {
     "DBadType": {1003, 1000}, "DArticle": {1009}, "DUnknownFun": {1000, 2001}, "DBadRef": {1000, 2001},
     "DConstRef": {2034}, "DConstAssign": {2034}, "DUndef": {2001}, "DNotVar": {2012}, "DDup": {2000, 2008}, "DBreak": {2017},
-    "DGlobalReturn": {2011}, "DMissingReturn": {2005}, "DImportUndef": {2001}, "DTypeOp": {3000}, "DTypeCast": {3004},
-    "DNoField": {3010}, "DPrivField": {3011}, "DTypeArg": {3000}, "DTypeInit": {3001}, "DTypeAssign": {3001}, "DTypeCond": {3007},
+    "DGlobalReturn": {2011}, "DMissingReturn": {2005}, "DImportUndef": {2001}, "DTypeOp": {3000, 3002, 3003}, "DTypeCast": {3004},
+    "DNoField": {3010}, "DPrivField": {3011}, "DTypeArg": {3000, 3003}, "DTypeInit": {3001}, "DTypeAssign": {3001}, "DTypeCond": {3007},
     "DTypeFor": {3008}, "DTypeRet": {3009}, "DPanic": {-1},
 }
 
@@ -1318,7 +1438,7 @@ def main():
             t = first_diag_tab.setdefault(d0, {})
             t[it["code"]] = t.get(it["code"], 0) + 1
             if it["code"] not in EXPECT.get(d0, set()):
-                first_diag_bad.append((d0, it["code"], it["src"], it["code"] in EXPECT.get(d1, set())))
+                first_diag_bad.append((d0, it["code"], "model: %s\nfrontend: code %s at line %s: %s\n\n%s" % (it["check"], it["code"], it["line"], (it["src"].splitlines() + [""] * it["line"])[max(it["line"] - 1, 0)], it["src"]), it["code"] in EXPECT.get(d1, set())))
         if not it["acc"]:
             codes[it["code"]] = codes.get(it["code"], 0) + 1
             if it["line"] > 2 and kind == "mutant":
